@@ -3,13 +3,14 @@
 import json, os, shutil, sys, glob
 VERIF = os.path.dirname(os.path.dirname(os.path.abspath(__file__)))
 pid = sys.argv[1]
-src = f"/tmp/seed_out/{pid}"
+src = (sys.argv[2] if len(sys.argv) > 2 else "/tmp/seed_out") + f"/{pid}"
+offset = int(sys.argv[3]) if len(sys.argv) > 3 else 0
 for patch in sorted(glob.glob(f"{src}/patch*.diff")):
     k = os.path.basename(patch)[5:-5]
     demo, notes = f"{src}/demo{k}.py", f"{src}/notes{k}.md"
     if not os.path.exists(demo):
         print("no demo for", patch); continue
-    d = os.path.join(VERIF, "seeded", f"{pid}-{k}")
+    d = os.path.join(VERIF, "seeded", f"{pid}-{int(k) + offset}")
     os.makedirs(d, exist_ok=True)
     shutil.copy(patch, os.path.join(d, "patch.diff"))
     shutil.copy(demo, os.path.join(d, "demo.py"))
